@@ -98,6 +98,14 @@ def pair_cases(ck):
         exp = 'Mc%d DEFINITIONS AUTOMATIC TAGS ::= BEGIN\n%s\nEND\n' \
               % (k, '\n'.join('%s ::= SEQUENCE { a %s, b INTEGER (0..%d), c SEQUENCE OF %s OPTIONAL }' % (x, targ, v + i, targ) for i, x in enumerate(ins)))
         out.append(('parameterized', [x.replace('-', '') for x in ins], sug, exp))
+        # C2: the type argument carries a constraint with a value reference, the value argument is a value reference
+        cap, capv = '%scap%d' % (rng.choice(PREFIXES).lower(), k), rng.randint(2, 60000)
+        tpl2, ins2 = '%sTpm%d' % (q, k), '%sInq%d' % (rng.choice(PREFIXES), k)
+        sug = ('Mi%d DEFINITIONS AUTOMATIC TAGS ::= BEGIN\n%s INTEGER ::= %d\n%s {T, INTEGER:n} ::= SEQUENCE { a T, b OCTET STRING (SIZE (1..n)) }\n'
+               '%s ::= %s { INTEGER (0..%s), %s }\n%sFlag%d ::= %s { BOOLEAN, 4 }\nEND\n' % (k, cap, capv, tpl2, ins2, tpl2, cap, cap, ins2, k, tpl2))
+        exp = ('Mi%d DEFINITIONS AUTOMATIC TAGS ::= BEGIN\n%s INTEGER ::= %d\n%s ::= SEQUENCE { a INTEGER (0..%d), b OCTET STRING (SIZE (1..%d)) }\n'
+               '%sFlag%d ::= SEQUENCE { a BOOLEAN, b OCTET STRING (SIZE (1..4)) }\nEND\n' % (k, cap, capv, ins2, capv, capv, ins2, k))
+        out.append(('parameterized-reference-arguments', [ins2], sug, exp))
         # D: selection types
         alts = [('aa', 'NULL'), ('bb', 'INTEGER (0..%d)' % rng.randint(1, 300)), ('cc', 'SEQUENCE { x BOOLEAN }'), ('dd', 'IA5String')]
         pick = rng.choice(alts)
